@@ -16,7 +16,7 @@ from checks.c05 import build_impl
 AREA = "expand"
 
 
-def rb(rng, n, alpha=b"abc -=/\x01\x7f\xff\t"):
+def rb(rng, n, alpha=b"abc -=/\x01\x7f\xff\t%sd"):
     return bytes(rng.choice(alpha) for _ in range(n))
 
 
@@ -24,7 +24,9 @@ def gen_fn_cases(rng, n):
     cases = []
     for _ in range(n):
         r = rng.random()
-        file = None if r < 0.05 else rb(rng, rng.choice([0, 1, 5, 30, 300]), b"/abc.")
+        file = None if r < 0.05 else rb(rng, rng.choice([0, 1, 5, 30, 300]), rng.choice([b"/abc.", b"/abc.", b"/a%sdx20 \xe9"]))
+        if file is not None and rng.random() < 0.05:
+            file = rng.choice([b"/tmp/50%done", b"my%20prog", b"%%", b"%s%s%s", b"/x/%d-%u-%x/%c", b"caf\xc3\xa9/%5s|"])
         r = rng.random()
         if r < 0.08:
             argv = None
@@ -50,7 +52,7 @@ def history(rng, tier):
     calls = []
     for k in range(n):
         r = rng.random()
-        path = rb(rng, rng.choice([1, 6, 40, lds + 5] if r < 0.9 else [0]), b"/binxyz.")
+        path = rb(rng, rng.choice([1, 6, 40, lds + 5] if r < 0.9 else [0]), rng.choice([b"/binxyz.", b"/binxyz.", b"/b%sd\xe9 x"]))
         r = rng.random()
         if r < 0.15:
             argv = None
